@@ -129,6 +129,8 @@ def is_empty_temp(n):
             a = ir.unwrap(args[0])
             if isinstance(a, dict) and a.get("k") == "init_list" and not a.get("elems"):
                 return True
+            if isinstance(a, dict) and a.get("k") == "lit" and a["t"] == "null":
+                return True  # unique_ptr{nullptr}
         return False
     if k == "init_list":
         return not n.get("elems")
